@@ -1,7 +1,11 @@
 // Package options contains render options for MJML components
 package options
 
-import "sync"
+import (
+	"sync"
+
+	"github.com/preslavrachev/gomjml/mjml/globals"
+)
 
 // FontTracker tracks font families used by components during rendering
 type FontTracker struct {
@@ -58,6 +62,7 @@ type RenderOpts struct {
 	RemainingBodySections    int                      // Remaining Outlook-sensitive blocks (mj-section/mj-wrapper) after the current one
 	RequireEmptyStyleTag     bool                     // Whether the head output should include an empty style tag for Outlook parity
 	InvalidAttributeReporter func(tagName, attrName string, line int)
+	GlobalAttributes         *globals.GlobalAttributes // mj-attributes definitions of the document being rendered
 }
 
 // InlineStyle represents a CSS declaration parsed from an inline mj-style rule.
